@@ -1249,7 +1249,11 @@ def reduce_(v: Variable, kind, dim=None):
                 ovar[idx] = t / (n * n)
         elif kind in ('min', 'max'):
             if n == 0:
-                raise C.Unsupported('min/max of empty')
+                # scipp: identity of the reduction (largest / lowest double), no error
+                import sys as _sys
+                big = R.lift(Fraction(_sys.float_info.max))
+                out[idx] = big if kind == 'min' else -big
+                continue
             m = items[0]
             for it in items[1:]:
                 if kind == 'min':
